@@ -193,112 +193,18 @@ def name_pieces(ctx, F, bs, data_op, depth=0):
     """symbolic value of one string operand appended to the conflict-copy name:
     [str | ('host',) | ('int',) | ('digest', helper path, operand) | ('?', what)]"""
     A, fl = bs.apply, bs.afl
-    v = const_val(data_op)
-    if isinstance(v, str):
-        return [v]
-    if data_op['k'] == 'const':
-        return [('?', 'constant')]
-    os_ = [o for o in fl.origins(data_op) if o.kind != 'comb']
-    if os_ and bs.is_param(set(os_), 'host'):
-        return [('host',)]
-    if len(os_) == 1 and os_[0].kind == 'const' and isinstance(os_[0].key, str):
-        return [os_[0].key]
-    ty = A.local_ty(data_op['p']['l']).replace('&', '').strip() if not data_op['p']['proj'] else ''
-    if ty in ('u8', 'u16', 'u32', 'u64', 'usize', 'i8', 'i16', 'i32', 'i64', 'isize'):
-        return [('int',)]
-    if len(os_) == 1 and os_[0].kind == 'call' and os_[0].bb is not None:
-        o = os_[0]
-        t = A.blocks[o.bb]['term']
-        last = o.key.split('::')[-1]
-        if o.key in ('std::fmt::format', 'alloc::fmt::format'):
-            from shtemplate import Templates
-            site = Templates(F).site_of_call(A, o.bb)
-            if site is None:
-                return [('?', 'format site')]
-            # the MIR operands of the arguments, in argument order: [Argument::new_*(&x), ..]
-            argops = format_arg_operands(fl, t)
-            out = []
-            for p_ in site['pieces']:
-                if isinstance(p_, str):
-                    out.append(p_)
-                elif argops is None or not (0 <= p_['arg'] < len(argops)) or argops[p_['arg']] is None:
-                    out.append(('?', 'format argument'))
-                elif p_.get('trait') not in (None, 'Display') or p_.get('width', -1) not in (-1, None):
-                    out.append(('?', 'formatted with %s' % p_.get('trait')))
-                else:
-                    out.extend(name_pieces(ctx, F, bs, argops[p_['arg']], depth + 1))
-            return out
-        if F.body(o.key) is not None and t['args']:
-            return [('digest', o.key, t['args'][0])]
-        if last in NAME_CONV and t['args'] and t['args'][0]['k'] != 'const' and depth < 6:
-            return name_pieces(ctx, F, bs, t['args'][0], depth + 1)
-    return [('?', root_name(fl, data_op))]
 
-
-def format_arg_operands(fl, fmt_term):
-    """operands x of `Argument::new_display(&x)` in argument order for a `format(Arguments::new(template, &[..]))` call; None if the shape is unknown"""
-    A = fl.body
-    for o in fl.origins(fmt_term['args'][0]):
-        if o.kind != 'call' or 'Arguments' not in o.key or o.bb is None:
-            continue
-        at = A.blocks[o.bb]['term']
-        for arg in at['args'][1:]:
-            for ao in fl.origins(arg):
-                if ao.kind == 'agg' and ao.key == 'array' and ao.bb is not None:
-                    for st in A.blocks[ao.bb]['stmts']:
-                        if st['rv']['k'] == 'agg' and st['rv'].get('ak') == 'array':
-                            res = {}
-                            for el in st['rv']['ops']:
-                                eo = [x for x in fl.origins(el) if x.kind == 'call' and 'Argument' in x.key and x.bb is not None]
-                                if len(eo) != 1:
-                                    return None
-                                # `Argument::new_display(&*(args.i))`: i is the index of the argument in the macro call
-                                ref = A.blocks[eo[0].bb]['term']['args'][0]
-                                ds = fl.defs.get(ref['p']['l'], []) if ref['k'] != 'const' else []
-                                f = None
-                                if len(ds) == 1 and ds[0][2] == 'assign' and ds[0][3]['k'] == 'ref':
-                                    f = next((pr['f'] for pr in ds[0][3]['p']['proj'] if isinstance(pr, dict) and 'f' in pr), None)
-                                if f is None:
-                                    return None
-                                res[f] = deref_operand(fl, ref)
-                            return [res.get(i) for i in range(max(res) + 1)] if res else []
-        if len(at['args']) == 1:
-            return []
-    return None
-
-
-def deref_operand(fl, op):
-    """`&x` / `&*(&x)` / `&(*tuple.i)` -> the operand for x (single definitions only)"""
-    A = fl.body
-    cur = op
-    for _ in range(8):
-        if cur['k'] == 'const':
-            return cur
-        l, proj = cur['p']['l'], cur['p']['proj']
-        if proj and proj != ['deref']:
-            # (tuple.i) possibly dereferenced: the element the tuple was built with
-            f = next((pr['f'] for pr in proj if isinstance(pr, dict) and 'f' in pr), None)
-            ds = [d for d in fl.defs.get(l, []) if d[2] == 'assign' and d[3]['k'] == 'agg']
-            if f is None or len(ds) != 1 or f >= len(ds[0][3]['ops']):
-                return cur
-            cur = ds[0][3]['ops'][f]
-            continue
-        ds = fl.defs.get(l, [])
-        if len(ds) != 1 or ds[0][2] != 'assign':
-            return {'k': 'copy', 'p': {'l': l, 'proj': []}}
-        data = ds[0][3]
-        if data['k'] == 'ref' and not [pr for pr in data['p']['proj'] if pr != 'deref']:
-            nxt = {'k': 'copy', 'p': {'l': data['p']['l'], 'proj': []}}
-            if A.local_name(data['p']['l']) or not fl.defs.get(data['p']['l']) or fl.defs[data['p']['l']][0][2] != 'assign':
-                return nxt
-            cur = nxt
-        elif data['k'] == 'ref':
-            cur = {'k': 'copy', 'p': data['p']}
-        elif data['k'] == 'use' and data['ops'][0]['k'] != 'const' and not A.local_name(l):
-            cur = data['ops'][0]
-        else:
-            return {'k': 'copy', 'p': {'l': l, 'proj': []}}
-    return cur
+    def leaf(fl_, op):
+        os_ = [o for o in fl_.origins(op) if o.kind != 'comb']
+        if os_ and bs.is_param(set(os_), 'host'):
+            return ('host',)
+        ty = A.local_ty(op['p']['l']).replace('&', '').strip() if not op['p']['proj'] else ''
+        if ty in ('u8', 'u16', 'u32', 'u64', 'usize', 'i8', 'i16', 'i32', 'i64', 'isize'):
+            return ('int',)
+        if len(os_) == 1 and os_[0].kind == 'call' and os_[0].bb is not None and F.body(os_[0].key) is not None and A.blocks[os_[0].bb]['term']['args']:
+            return ('digest', os_[0].key, A.blocks[os_[0].bb]['term']['args'][0])
+        return None
+    return str_pieces(F, fl, data_op, leaf)
 
 
 def r3(ctx, F, bs):
